@@ -234,3 +234,30 @@ def c12(tier, seed):
     run.add_bounded("save -> from_file round trip", BF.roundtrip_family(seed, _n(tier, 400, 12000)))
     run.trusted.add("json.dump / json.load round-trip floats, strings, bools, lists and dicts")
     return run.finish()
+
+
+# ================================================================================================================ C10
+def c10(tier, seed):
+    run = Run("C10", tier, seed, "other", "bin/check C10 --tier " + tier)
+    from contracts import ctor as CT
+    from .system_layer import _discharge
+    _discharge(run, CT.interp_obligations(run, Source()), "interpolators")
+    # call sites: every law queries ipr(|io|, |vi_selected|)  (the interpolator argument is part of each law clause)
+    comp_layer(run, "LAW", ("outp", "inp"), (1, 2), seed, tier, kinds=["VLoss", "Converter", "LinReg", "PSwitch", "PMux", "Rectifier:diode", "Rectifier:mosfet"])
+    comp_layer(run, "C02", ("pwr",), (1,), seed, tier, kinds=["VLoss", "Converter", "LinReg", "PSwitch", "PMux", "Rectifier:diode", "Rectifier:mosfet"])
+    from bounded import families as BF
+    run.add_bounded("interpolation semantics on random tables", BF.interp_family(seed, _n(tier, 350, 14000)))
+    run.notes.append("the interpolation arithmetic itself lives in numpy / scipy (external): exact-on-grid / linear / clamped / no-NaN is decided bounded; P covers our own clamp logic, argument magnitudes, table flattening and every call site")
+    return run.finish()
+
+
+# ================================================================================================================ C13
+def c13(tier, seed):
+    run = Run("C13", tier, seed, "other", "bin/check C13 --tier " + tier)
+    from contracts import ctor as CT
+    from .system_layer import _discharge
+    _discharge(run, CT.toml_obligations(run, Source()), "TOML loader")
+    from bounded import families as BF
+    run.add_bounded("TOML files vs constructor twins", BF.toml_family(seed, _n(tier, 500, 15000)))
+    run.trusted.add("toml.load / toml.dump")
+    return run.finish()
